@@ -13,7 +13,9 @@ def make(rnd):
     n = rnd.randrange(3, 10)
     plates = np.array(["p%d" % rnd.randrange(4) for _ in range(n)])
     obs_by = {p: rnd.random() < 0.3 for p in set(plates)}
-    return Screen(observations=np.array([rnd.uniform(0.1, 1) for _ in range(n)]), observation_mask=np.array([obs_by[p] for p in plates]),
+    # a third of the prepared screens carry unusual stored readouts (inf, -inf, 0.0, NaN: failed wells, empty controls) behind or in front of the mask
+    odd = (lambda: rnd.choice([float("inf"), float("-inf"), 0.0, float("nan")]) if rnd.random() < 0.25 else rnd.uniform(0.1, 1)) if rnd.random() < 0.34 else (lambda: rnd.uniform(0.1, 1))
+    return Screen(observations=np.array([odd() for _ in range(n)]), observation_mask=np.array([obs_by[p] for p in plates]),
                   sample_names=np.array(["s%d" % rnd.randrange(4) for _ in range(n)]), plate_names=plates,
                   treatment_names=np.array([[rnd.choice("abcd"), rnd.choice(["a", "b", "control"])] for _ in range(n)]),
                   treatment_doses=np.array([[rnd.choice([1., 2.]), rnd.choice([0., 1.])] for _ in range(n)]), control_treatment_name="control")
@@ -50,7 +52,7 @@ def history(seed):
         for step in range(rnd.randrange(1, 5)):
             op = rnd.choice(["reveal", "mask", "unmask", "saveload"])
             try:
-                if op == "reveal": s = reveal_plates(s, [rnd.randrange(s.n_plates)])
+                if op == "reveal": s = reveal_plates(s, sorted({rnd.randrange(s.n_plates) for _ in range(rnd.choice([1, 1, 2, 3]))}))
                 elif op == "mask": s = mask_screen(s)
                 elif op == "unmask": s = unmask_screen(s)
                 else:
@@ -78,7 +80,7 @@ def main():
         except Exception as e: r = "raised %r" % (e,)
         if r and len(viol) < 5: viol.append({"seed": seed, "what": r, "site": "simulation lifecycle ids"})
     print(json.dumps({"violations": viol, "bounded": [{"function": "hold-out split + reveal/mask/unmask/save/load histories",
-        "bound": "%d random prepared screens (<=9 rows, 4 samples, 4x3 treatments) x histories of <=4 steps" % N, "evaluations": N, "distinct_nontrivial": N,
+        "bound": "%d random prepared screens (<=9 rows, 4 samples, 4x3 treatments, a third with inf/-inf/0/NaN readouts) x histories of <=4 steps" % N, "evaluations": N, "distinct_nontrivial": N,
         "label": "bounded stand-in, not counted as proved"}]}))
 
 
